@@ -24,6 +24,8 @@ REPO = os.environ.get("VERIF_REPO", "/repo")
 GOVC = os.path.join(VERIF, "bin", "govc")
 BASELINE = os.path.join(VERIF, "baseline", "clauses.lock.json")
 KNOWN = os.path.join(VERIF, "known_findings.json")
+KNOWNFUNCS = os.path.join(VERIF, "baseline", "functions.json")  # package -> functions on the pinned tree (new helpers are executed in place)
+LOOPSIGS = os.path.join(VERIF, "baseline", "loopsigs.json")  # pkg::func -> loop signatures on the pinned tree (loop reordering keeps contract ordinals)
 GOROOT_GLOB = "/root/go/pkg/mod/golang.org/toolchain@v0.0.1-go1.25.5.linux-amd64"
 
 
@@ -68,6 +70,10 @@ def run_govc(pkgs, only, timeout, workdir, tag, overlay=None, extra=None):
            "-smtdir", os.path.join(workdir, "smt_" + tag)]
     if overlay:
         cmd += ["-overlay", overlay]
+    if os.path.exists(LOOPSIGS):
+        cmd += ["-loopsigs", LOOPSIGS]
+    if os.path.exists(KNOWNFUNCS):
+        cmd += ["-knownfuncs", KNOWNFUNCS]
     if extra:
         cmd += extra
     p = subprocess.run(cmd, env=go_env(), stdout=subprocess.PIPE, stderr=subprocess.STDOUT, text=True)
@@ -145,6 +151,15 @@ def classify(pid, results, baseline, known):
                 rep["trusted"].add(t)
             if f.get("abstractions"):
                 rep["abstractions"][fname] = f["abstractions"]
+            # a loop invariant that is unsatisfiable at its own loop head says nothing about this code any more (the loop was
+            # rewritten around other variables, e.g. a cursor local replaced by another one): its failure is contract drift,
+            # not a violation - and nothing behind that loop head is decided (reported through the vacuity line)
+            vac_loops = set()
+            for o in f.get("obligations") or []:
+                if o.get("vacuity") and o["verdict"] == "unsat":
+                    mm = re.search(r"vacuity:loop(\d+)", o["clause"])
+                    if mm:
+                        vac_loops.add(mm.group(1))
             for o in f.get("obligations") or []:
                 o = dict(o)
                 o["fname"] = fname
@@ -167,12 +182,20 @@ def classify(pid, results, baseline, known):
                 # run-time safety, locking and frame obligations do not depend on anchors and still count
                 # the same holds when an invariant / assumption / postcondition names a local the changed code no longer
                 # has (a renamed or removed variable): the clause was dropped for this run, what rested on it is not decided
+                helper_loop = any(a.get("kind") == "inline-loop" for a in (f.get("abstractions") or []))
                 anchor_drift = any(("anchor not found" in d or "names a variable the code no longer has" in d) for d in (f.get("drift") or []))
                 independent = o["kind"] in ("index", "slice", "div", "nil", "panic", "exit", "typeassert", "makeslice", "lock", "monitor", "frame", "shift", "conv")
                 # a guard clause (`requires false` on a call that must not appear) depends on nothing
                 independent = independent or (o["desc"] or "").rstrip().endswith("precondition false")
+                mm = re.search(r"loop(\d+)-invariant", o["clause"])
                 if matched:
                     rep["known"].append((o, matched))
+                elif helper_loop:
+                    o["desc"] = "contract-drift: a loop of this function was moved into a new helper (no invariant there); " + (o["desc"] or "")
+                    rep["undecided"].append(o)
+                elif mm and mm.group(1) in vac_loops:
+                    o["desc"] = "contract-drift: the invariant of loop %s is unsatisfiable at its loop head on this code; " % mm.group(1) + (o["desc"] or "")
+                    rep["undecided"].append(o)
                 elif clause_key(o) in base and (not anchor_drift or independent):
                     rep["violations"].append(o)
                 else:
@@ -404,6 +427,19 @@ def main():
             os.makedirs(os.path.dirname(BASELINE), exist_ok=True)
             with open(BASELINE, "w") as f:
                 json.dump(baseline, f, indent=1, sort_keys=True)
+            sigs = load_json(LOOPSIGS, {})
+            for res in results:
+                for fr in res["functions"]:
+                    if fr.get("loop_sigs") and not fr.get("loops_remapped") and not fr.get("error"):
+                        sigs[fr["pkg"] + "::" + fr["name"]] = fr["loop_sigs"]
+            with open(LOOPSIGS, "w") as f:
+                json.dump(sigs, f, indent=1, sort_keys=True)
+            kf = load_json(KNOWNFUNCS, {})
+            for res in results:
+                for pk, l in (res.get("root_funcs") or {}).items():
+                    kf[pk] = l
+            with open(KNOWNFUNCS, "w") as f:
+                json.dump(kf, f, indent=0, sort_keys=True)
             print("baseline for %s: %d clauses locked, %d not locked (failing, not known)" % (pid, len(locked), len(failed)))
             rep = classify(pid, results, baseline, known)
         rc = 0
